@@ -6,7 +6,7 @@ from collections import Counter
 from .. import core, check, facflow, epflow, epcheck, gen
 
 THEOREMS = ["C07_respects", "C07_nothing_removed", "C07_forced", "C07_export_defaults", "C07_red_precedence",
-            "C07_complete", "C07_idempotent", "C07_idempotent_user", "C07_rejects", "C07_rejects_no_grid_electricity"]
+            "C07_complete", "C07_idempotent", "C07_idempotent_user", "C07_rejects", "C07_no_electricity_added", "C07_prepared_carriers_have_grid_factors"]
 
 
 def run(tier, seed):
